@@ -6,6 +6,7 @@
 package sniffing
 
 import (
+	"encoding/binary"
 	"errors"
 	"io/fs"
 
@@ -27,7 +28,22 @@ const (
 
 const (
 	QuicVersion1 = 0x00000001
+	QuicVersion2 = 0x6b3343cf
+
+	// QUIC v2 renumbers the long header packet types: Initial is 0b01
+	// (RFC 9369, Section 3.2), not 0b00 as in v1 (RFC 9000, Section 17.2).
+	QuicV2Flag_LongPacketType_Initial = 1
 )
+
+// quicInitialPacketType returns the long header packet type that denotes an
+// Initial packet in the QUIC version carried by buf (which must hold at least
+// the first byte and the 4-byte version).
+func quicInitialPacketType(buf []byte) byte {
+	if len(buf) >= 5 && binary.BigEndian.Uint32(buf[1:5]) == QuicVersion2 {
+		return QuicV2Flag_LongPacketType_Initial
+	}
+	return QuicFlag_LongPacketType_Initial
+}
 
 // IsLikelyQuicInitialPacket checks if the buffer appears to be a QUIC Initial packet.
 // It validates the Long Header format and Initial packet type.
@@ -45,7 +61,7 @@ func IsLikelyQuicInitialPacket(buf []byte) bool {
 	if ((protectedFlag >> QuicFlag_HeaderForm) & 0b1) != QuicFlag_HeaderForm_LongHeader {
 		return false
 	}
-	if ((protectedFlag >> QuicFlag_LongPacketType) & 0b11) != QuicFlag_LongPacketType_Initial {
+	if ((protectedFlag >> QuicFlag_LongPacketType) & 0b11) != quicInitialPacketType(buf) {
 		return false
 	}
 
@@ -109,7 +125,7 @@ func sniffQuicBlock(s *Sniffer, cryptos []*quicutils.CryptoFrameOffset, buf []by
 	if ((protectedFlag >> QuicFlag_HeaderForm) & 0b11) != QuicFlag_HeaderForm_LongHeader {
 		return cryptos, nil, ErrNotApplicable
 	}
-	if ((protectedFlag >> QuicFlag_LongPacketType) & 0b11) != QuicFlag_LongPacketType_Initial {
+	if ((protectedFlag >> QuicFlag_LongPacketType) & 0b11) != quicInitialPacketType(buf) {
 		return cryptos, nil, ErrNotApplicable
 	}
 
